@@ -84,11 +84,62 @@ def _names(lst):
     return [c.__name__ for c in lst]
 
 
+def scribble(ctx):
+    """history on the library's own tables: everything the lookup functions hand out is checked against the reference and
+    then overwritten in place by the caller; what the library answers afterwards must not depend on it"""
+    ops = _lib()
+    case = {"kind": "group"}
+    for nm in ALPHA:
+        cls = getattr(ops, nm)
+        for arg in (cls, [cls], [cls, cls]):
+            try:
+                M = ops.local_clifford_to_matrix_map(arg)
+            except Exception as e:
+                ctx.violation("matrix_map_raises", case, {"argument": nm, "as_list": isinstance(arg, list), "exception": repr(e)[:200]}, key="matrix_map_exc")
+                continue
+            ref = mat_of([nm] * (len(arg) if isinstance(arg, list) else 1))
+            ctx.count("scribble:handed_out")
+            if not np.allclose(M, ref, atol=1e-9, rtol=0):
+                ctx.violation("matrix_map_differs", case, {"entry": [nm], "as_list": isinstance(arg, list), "got": np.round(M, 6).tolist()}, key="matrix_map")
+            if isinstance(M, np.ndarray) and M.flags.writeable:
+                M[...] = 7  # the caller uses its result as scratch space
+    for M in list(ops.local_cliffords_name_to_matrix_map()):
+        if isinstance(M, np.ndarray) and M.flags.writeable:
+            M[...] = 7
+            ctx.count("scribble:handed_out")
+    for g in ops.one_qubit_cliffords():
+        if isinstance(g, list):
+            g.clear()
+            ctx.count("scribble:handed_out")
+    try:
+        a, b = ops.local_clifford_composition()
+        for lst in (a, b):
+            if isinstance(lst, list):
+                for g in lst:
+                    if isinstance(g, list):
+                        g.clear()
+                lst.clear()
+                ctx.count("scribble:handed_out")
+    except Exception:
+        pass
+    try:
+        r = ops.simplify_local_clifford([ops.Hadamard, ops.Phase])
+    except Exception as e:
+        ctx.violation("simplify_raises", {"kind": "word", "word": ["Hadamard", "Phase"]}, {"exception": repr(e)[:200], "after": "results of the lookup functions were overwritten in place by their caller"},
+                      key="simplify_exc")
+        return
+    if isinstance(r, list):
+        r.clear()
+        ctx.count("scribble:handed_out")
+
+
 def run_shard(spec, ctx):
+    scribble(ctx)
     {"group": run_group, "words": run_words, "wrappers": run_wrappers, "nonclifford": run_noncliff}[spec["kind"]](spec, ctx)
 
 
 def replay(case, ctx):
+    scribble(ctx)
     if case["kind"] == "word":
         check_word(case["word"], ctx, _enum_names(ctx))
     elif case["kind"] == "wrapper":
